@@ -45,6 +45,19 @@ def items(ctx):
         variants = [{"use_lb": ul, "use_c": uc, "as_value": rng.random() < 0.3}
                     for ul in (False, True) for uc in (False, True)]
         out.append({"q": qs, "cands": cands, "S": 1, "set": st, "history": hist, "variants": variants})
+    # lower bound under stress: queries SHORTER than the candidates, narrow windows, a wider alphabet and k = 1-2,
+    # so that an unsound bound (envelope too narrow on one side) prunes a true nearest neighbour
+    for _ in range(500 if q else 8000):
+        lq = rng.randint(2, 4)
+        vals = (0, 1, 2, 3, 4, 5)
+        qs = [[rng.choice(vals)] for _ in range(lq)]
+        N = rng.randint(3, 6)
+        cands = [[[rng.choice(vals)] for _ in range(lq + rng.choice([0, 1, 1, 2]))] for _ in range(N)]
+        st = {"s1": [[0]], "s2": [[0]], "inner": rng.choice(["sq", "eu"]), "w": rng.choice([1, 1, 2]),
+              "pen": 0, "ms": 0, "md": 0, "mld": -1, "psi": [0, 0, 0, 0]}
+        hist = [("kbest", rng.choice([1, 1, 2]))]
+        variants = [{"use_lb": True, "use_c": uc, "as_value": False} for uc in (False, True)]
+        out.append({"q": qs, "cands": cands, "S": 1, "set": st, "history": hist, "variants": variants})
     for k, it in enumerate(out):
         it["id"] = "c14-%d" % k
     return out
